@@ -92,6 +92,10 @@ func (e *OpEngine) RunProgram(p *Program, st *WalkStats) {
 				// a shape operation that keeps the shape: the element expression is unchanged
 				fn = e.method("Reshape")
 				args = []interp.Value{vals[s.A], e.intsArg(dims)}
+			case "BroadcastSame":
+				// an explicit Broadcast to the operand's own shape: a graph node of its own (expansion factor 1)
+				fn = e.method("Broadcast")
+				args = []interp.Value{vals[s.A], e.intsArg(dims)}
 			case "Flatten0":
 				fn = e.method("Flatten")
 				args = []interp.Value{vals[s.A], intV(sym.PInt(0))}
@@ -253,7 +257,7 @@ func (e *OpEngine) RunProgram(p *Program, st *WalkStats) {
 					addTo(s.A, sym.Mul(G[i], sym.PowInt(sym.FnE("cosh", F[s.A]), -2)))
 				case "Sin":
 					addTo(s.A, sym.Mul(G[i], sym.FnE("cos", F[s.A])))
-				case "ReshapeSame", "Flatten0", "ElMaxSelf":
+				case "ReshapeSame", "Flatten0", "ElMaxSelf", "BroadcastSame":
 					addTo(s.A, G[i])
 				case "Add":
 					addTo(s.A, G[i])
@@ -452,6 +456,8 @@ func TemplatePrograms() []*Program {
 		{Name: "same-operand-twice", Leaves: []bool{T}, Steps: []PStep{{"Exp", 0, 0}, {"ElMaxSelf", 1, 0}, {"Scale", 2, 0}}},
 		{Name: "same-operand-twice-fanout", Leaves: []bool{T}, Steps: []PStep{{"Scale", 0, 0}, {"ElMaxSelf", 1, 0}, {"Mul", 2, 1}, {"ElMaxSelf", 3, 0}}},
 		{Name: "identity-reshape-of-intermediate", Leaves: []bool{T}, Steps: []PStep{{"Exp", 0, 0}, {"ReshapeSame", 1, 0}, {"Scale", 2, 0}}},
+		{Name: "identity-broadcast-of-intermediate", Leaves: []bool{T}, Steps: []PStep{{"Exp", 0, 0}, {"BroadcastSame", 1, 0}, {"Scale", 2, 0}}},
+		{Name: "identity-broadcast-as-root", Leaves: []bool{T}, Steps: []PStep{{"Scale", 0, 0}, {"BroadcastSame", 1, 0}}},
 		{Name: "flatten-of-intermediate-fanout", Leaves: []bool{T}, Steps: []PStep{{"Scale", 0, 0}, {"Flatten0", 1, 0}, {"Mul", 2, 1}}},
 		{Name: "root-is-leaf", Leaves: []bool{T}, Steps: nil, Roots: []int{0}},
 		{Name: "intermediate-root", Leaves: []bool{T}, Steps: []PStep{{"Exp", 0, 0}, {"Scale", 1, 0}}, Roots: []int{1}},
